@@ -215,9 +215,10 @@ class HexRunner:
     observe(runner, target, trie) is called after every operation (target = "0" or "b"); it
     emits whatever observations the property compares and runs its oracle."""
 
-    def __init__(self, res, prune, observe=None, db=None, raw_tie=False):
+    def __init__(self, res, prune, observe=None, db=None, raw_tie=False, reopen=False):
         self.res = res
         self.raw_tie = raw_tie
+        self.reopen = reopen        # replace the trie object mid-history by one re-opened on a fresh copy of the root hash
         self.db = {} if db is None else db
         self.trie = HexaryTrie(self.db, prune=prune)
         self.prune = prune
@@ -315,7 +316,12 @@ class HexRunner:
         return out
 
     def run(self, ops):
-        for op in ops:
+        reopen_at = (len(ops) * 5 + 3) % (len(ops) + 1) if (self.reopen and not self.prune and ops) else None
+        for opno, op in enumerate(ops):
+            if opno == reopen_at:
+                # the same database, an equal-but-not-identical root hash object (the blank root included): a new trie object
+                self.trie = HexaryTrie(self.db, bytes(bytearray(self.trie.root_hash)), prune=False)
+                self.res.tags.add("reopened" + (":blank-root" if not self.model else ""))
             if op[0] == "batch":
                 self.batch(op[1], op[2])
             else:
